@@ -94,10 +94,13 @@ func (k Keeper) SendInflationaryRewards(ctx context.Context, coins sdk.Coins) er
 			Address: authtypes.NewModuleAddressOrBech32Address(types.TimeBasedRewards).String(),
 			Coins:   sdk.NewCoins(sdk.NewCoin(layer.BondDenom, threequarters)),
 		},
-		{
+	}
+	// a provision below 4 loya (block times 1-2ms apart) has no quarter to share; the bank rejects empty outputs
+	if quarter.IsPositive() {
+		outputs = append(outputs, banktypes.Output{
 			Address: authtypes.NewModuleAddressOrBech32Address(authtypes.FeeCollectorName).String(),
 			Coins:   sdk.NewCoins(sdk.NewCoin(layer.BondDenom, quarter)),
-		},
+		})
 	}
 	moduleAddress := authtypes.NewModuleAddressOrBech32Address(types.ModuleName)
 	inputs := banktypes.NewInput(moduleAddress, sdk.NewCoins(sdk.NewCoin(layer.BondDenom, threequarters.Add(quarter))))
